@@ -241,6 +241,32 @@ Theorem C15_bzl_tmp_removed_all_exits :
 Proof. exact bzl_tmp_removed_all_exits. Qed.
 Print Assumptions C15_bzl_tmp_removed_all_exits.
 
+(* -- several repositories in order (MultiRepository.get_dist: --index-url A --extra-index-url B) --- *)
+Theorem C15_multi_only_no_candidate_is_skipped :
+  forall (sha : bytes -> string) (meta : fname -> bytes -> mres) allow maxdg rs w w' res tr,
+  multi_get_dist sha meta allow maxdg rs w = (w', res, tr) ->
+  (res = SExn NoCandidate /\ Forall is_nc tr) \/
+  (exists pre, tr = (pre ++ [res])%list /\ Forall is_nc pre).
+Proof. exact multi_only_no_candidate_is_skipped. Qed.
+Print Assumptions C15_multi_only_no_candidate_is_skipped.
+
+Theorem C15_multi_page_exhausted_fails_run :
+  forall (sha : bytes -> string) (meta : fname -> bytes -> mres) allow maxdg r rest w fives s,
+  Forall (fun x => is_5xx x = true) fives -> List.length fives = S (r_retries r) ->
+  r_pages r = (map PResp fives ++ s)%list ->
+  multi_get_dist sha meta allow maxdg (r :: rest) w = (w, SExn HTTPError, [SExn HTTPError]).
+Proof. exact multi_page_exhausted_fails_run. Qed.
+Print Assumptions C15_multi_page_exhausted_fails_run.
+
+Theorem C15_multi_failed_transfer_fails_run :
+  forall (sha : bytes -> string) (meta : fname -> bytes -> mres) allow maxdg r rest w n c cs v fn w1 e,
+  scan_page (r_retries r) (r_pages r) 0 = (PParsed 200%N, n) -> r_listing r = c :: cs ->
+  cver c = Some v -> (csdist c && negb allow) = false -> cfile c = Some fn ->
+  do_download sha w fn (cres c) = (w1, DExn e) ->
+  multi_get_dist sha meta allow maxdg (r :: rest) w = (w1, SExn e, [SExn e]).
+Proof. exact multi_failed_transfer_fails_run. Qed.
+Print Assumptions C15_multi_failed_transfer_fails_run.
+
 (* -- frame and self-healing ---------------------------------------------------------------------- *)
 Theorem C15_scan_touches_only_candidate_files :
   forall (sha : bytes -> string) (meta : fname -> bytes -> mres) allow maxdg cs g w tried w' r,
@@ -267,6 +293,7 @@ Theorem C15_gen_download_shape :
   dl_status_refs = 1%N /\ dl_status_check_before_write = true /\ dl_digest_sep = "#sha256="%string /\
   dl_reuse_guarded_by_digest = true /\
   dl_removes_on_mismatch = true /\ rc_except_class = "Exception"%string /\ rc_removal_guard_ok = true /\
-  rc_reraises = true /\ scan_handlers = [EMetadata].
+  rc_reraises = true /\ scan_handlers = [EMetadata] /\
+  multi_get_dist_handlers = ["NoCandidateException"%string].
 Proof. exact gen_download_shape. Qed.
 Print Assumptions C15_gen_download_shape.
